@@ -63,6 +63,9 @@ structure Facts where
   -- C08: writes to / addresses taken of fields reached from a shared descriptor on the hot paths
   descriptorWriteSites : Nat
   descriptorWriteSiteList : List String
+  -- full text of everything in internal/defs / internal/reflect that no other fingerprint, table or fact covers
+  residualDefsSkeleton : String
+  residualReflectSkeleton : String
   -- C08 / C07: every store into package-level state of internal/reflect and internal/defs outside init
   -- ("pkg/file:func writes var"), to be compared with the list of the tree the model was written from
   sharedWriteSiteList : List String
